@@ -48,6 +48,18 @@ def cmdGsCheck (j : Json) : Except String Json := do
   pure (Json.mkObj [("matching", jBool (GS.isMatching P M)),
                     ("blocking", match blk with | none => Json.null | some p => jPair jNat jNat p)])
 
+/-- arbitration on explicit storm runs and rise runs (candidates = overlapping pairs) -/
+def cmdDisamb (j : Json) : Except String Json := do
+  let storms ← listOf (pairOf getNat getNat) (← field j "storms")
+  let rises ← listOf (pairOf getNat getNat) (← field j "rises")
+  let pick ← (← field j "pick").getStr?
+  let P := problemOf storms rises
+  let M := GS.galeShapley P (pickOf pick)
+  pure (Json.mkObj [
+    ("pairs", jList (fun p : Nat × Nat => jPair jRun jRun (runWithStart storms p.2, runWithStart rises p.1)) M),
+    ("strict", jBool (GS.riseStrictB P)),
+    ("prefs", jList (fun s => jPair jNat (jList jNat) (s, P.prefs s)) P.storms)])
+
 section
 variable {α : Type} [Num α] [Codec α]
 
@@ -79,6 +91,10 @@ def cmdClassify (j : Json) : Except String Json := do
       ("pairs", jList (jPair jIRun jIRun) c.pairs),
       ("strict", jBool c.strict),
       ("depths", jList (fun p => jPair jInt (Codec.enc (α := α)) (p.1.1, totalRainDepth db p.1)) c.pairs)])
+
+def cmdWf (j : Json) : Except String Json := do
+  let db ← decLoaded (α := α) (← field j "db")
+  pure (jBool (wellFormedLoadedB db))
 
 /-- index-level classification of one stretch, with the candidate relation and scores exposed -/
 def cmdClassifyIdx (j : Json) : Except String Json := do
